@@ -257,6 +257,7 @@ func runParent(p Property, scs []Sc, tier string, seed int64, n int, evidencePat
 		return 2
 	}
 	byName := map[string]*merged{}
+	counters := map[string]int64{}
 	var order []string
 	for _, pr := range procs {
 		b, err := os.ReadFile(pr.out)
@@ -309,6 +310,9 @@ func runParent(p Property, scs []Sc, tier string, seed int64, n int, evidencePat
 			}
 			for k, v := range st.Outcomes {
 				m.Outcomes[k] += v
+			}
+			for k, v := range st.Stats.Counters {
+				counters[k] += v
 			}
 			for _, v := range st.Stats.Violations {
 				found := false
@@ -422,8 +426,20 @@ func runParent(p Property, scs []Sc, tier string, seed int64, n int, evidencePat
 		return len(newViol[i].Choices) < len(newViol[j].Choices)
 	})
 	reported := 0
+	{
+		// one report per signature (the sort above puts the smallest example first)
+		seen := map[string]bool{}
+		var uniq []explore.Violation
+		for _, v := range newViol {
+			if !seen[v.Signature] {
+				seen[v.Signature] = true
+				uniq = append(uniq, v)
+			}
+		}
+		newViol = uniq
+	}
 	for _, v := range newViol {
-		if reported >= 5 {
+		if reported >= 12 {
 			break
 		}
 		path := writeReplay(p, tier, v)
@@ -445,10 +461,22 @@ func runParent(p Property, scs []Sc, tier string, seed int64, n int, evidencePat
 		"workers":                       n,
 		"rule":                          p.Rule,
 	}
+	if len(counters) > 0 {
+		cov["harness_counters"] = counters
+		// explicit-state checks report abstract states / checked transitions of the real object
+		if v, ok := counters["mc_states"]; ok {
+			cov["scheduler_states"] = cov["states"]
+			cov["states"] = v
+		}
+		if v, ok := counters["mc_transitions"]; ok {
+			cov["scheduler_transitions"] = cov["transitions"]
+			cov["transitions"] = v
+		}
+	}
 	if extra != nil {
 		cov["sequential_part"] = map[string]interface{}{"name": extra.Name, "states": extra.States, "transitions": extra.Transitions, "evaluations": extra.Evaluations, "distinct": extra.Distinct, "complete": extra.Complete, "note": extra.Note, "coverage": extra.Coverage}
 	}
-	if totStates == 0 {
+	if v, ok := cov["states"].(int64); ok && v == 0 {
 		cov["states"] = 1
 	}
 	if len(samples) == 0 {
@@ -481,8 +509,8 @@ func runParent(p Property, scs []Sc, tier string, seed int64, n int, evidencePat
 		fmt.Fprintf(os.Stderr, "ENGINE-ERROR: evidence: %v\n", err)
 		return 2
 	}
-	fmt.Printf("%s tier=%s scenarios=%d executions=%d states=%d transitions=%d distinct_outcomes=%d exhaustive=%v violations=%d wall=%.1fs\n",
-		p.ID, tier, len(order), totExec, totStates, totTrans, distinct, allComplete, len(newViol), time.Since(start).Seconds())
+	fmt.Printf("%s tier=%s scenarios=%d executions=%d states=%v transitions=%v distinct_outcomes=%d exhaustive=%v violations=%d wall=%.1fs\n",
+		p.ID, tier, len(order), totExec, cov["states"], cov["transitions"], distinct, allComplete, len(newViol), time.Since(start).Seconds())
 	return exit
 }
 
